@@ -25,9 +25,13 @@ func c04Names(seq []int) []string {
 }
 
 // c04Run executes one event sequence; returns the number of events applied.
-func c04Run(c *explore.Ctx, version byte, seq []int) int {
+func c04Run(c *explore.Ctx, version byte, seq []int, pubRecvMax ...uint16) int {
+	rm := uint16(0) // Receive Maximum the publisher itself announces in CONNECT (limits broker->publisher only)
+	if len(pubRecvMax) > 0 {
+		rm = pubRecvMax[0]
+	}
 	cas := func() any {
-		return map[string]any{"version": version, "seq": seq, "events": c04Names(seq)}
+		return map[string]any{"version": version, "seq": seq, "events": c04Names(seq), "publisher_receive_maximum": rm}
 	}
 	applied := 0
 	execBody(c, "C04", cas, func() {
@@ -46,6 +50,9 @@ func c04Run(c *explore.Ctx, version byte, seq []int) int {
 			o := harness.ConnectOpts{ClientID: "pub", Clean: clean, Version: version}
 			if version == refmqtt.V5 {
 				o.Props = &refmqtt.Props{SessionExpiry: harness.U32(3600)}
+				if rm != 0 {
+					o.Props.ReceiveMax = harness.U16(rm)
+				}
 			}
 			return p.Connect(o)
 		}
@@ -192,10 +199,11 @@ func ackClass(got, want []string) string {
 
 func runC04(c *explore.Ctx) {
 	c.Level = "model_checking"
-	c.Rule = "E2: every sequence of publisher events (QoS2 publish id1/id2, DUP retransmission, PUBREL, QoS1 publish, cut+reconnect clean 0/1, take-over) up to the depth, for a v5 and a v3.1.1 publisher, executed on a fresh in-process broker under the cooperative scheduler; after every event the acks on the publisher socket and the payloads forwarded to an independent QoS0 subscriber are compared with a reference 'awaiting PUBREL' set. states = distinct valid event prefixes, transitions = events applied."
+	c.Rule = "E2: every sequence of publisher events (QoS2 publish id1/id2, DUP retransmission, PUBREL, QoS1 publish, cut+reconnect clean 0/1, take-over) up to the depth, for a v5 and a v3.1.1 publisher (and, one level shallower, a v5 publisher announcing Receive Maximum 1 itself), executed on a fresh in-process broker under the cooperative scheduler; after every event the acks on the publisher socket and the payloads forwarded to an independent QoS0 subscriber are compared with a reference 'awaiting PUBREL' set. states = distinct valid event prefixes, transitions = events applied."
 	c.Trusted = []string{"vsched scheduler semantics (default schedule, 0 deviations)", "refmqtt codec"}
 	if rc := replayCase(c); rc != nil {
-		c04Run(c, byte(rc["version"].(float64)), intsOf(rc["seq"]))
+		prm, _ := rc["publisher_receive_maximum"].(float64)
+		c04Run(c, byte(rc["version"].(float64)), intsOf(rc["seq"]), uint16(prm))
 		return
 	}
 	depth := 5
@@ -204,9 +212,18 @@ func runC04(c *explore.Ctx) {
 	}
 	c.Extra["depth"] = depth
 	c.Extra["alphabet"] = c04Events
+	// a v5 publisher that announces a small Receive Maximum of its own: that value limits
+	// what the broker sends to it and must not limit what it may send
+	treeUnits(c, "tree-v5-publisher-recvmax1", len(c04Events), depth-1, func(seq []int) int {
+		return c04Run(c, refmqtt.V5, seq, 1)
+	})
 	for _, v := range []byte{refmqtt.V5, refmqtt.V311} {
 		v := v
-		treeUnits(c, fmt.Sprintf("tree-v%d", v), len(c04Events), depth, func(seq []int) int {
+		d := depth
+		if v == refmqtt.V311 && c.Quick() {
+			d = depth - 1 // the v3.1.1 path differs only in the acknowledgement encoding
+		}
+		treeUnits(c, fmt.Sprintf("tree-v%d", v), len(c04Events), d, func(seq []int) int {
 			n := c04Run(c, v, seq)
 			if n == len(seq) && c.Get("executions")%5000 == 0 {
 				c.Sample(map[string]any{"version": v, "events": c04Names(seq)})
